@@ -10,3 +10,5 @@ mod c07;
 mod c06;
 #[cfg(kani)]
 mod c11;
+#[cfg(kani)]
+mod c16;
